@@ -58,10 +58,18 @@ class Formula(BooleanLogics.Formula):
 
         for phi in subformulas:
             if isinstance(phi, bool):
-                self._subformula.append(Lang.Bool(phi))
+                phi = Lang.Bool(phi)
+                if not isinstance(phi, FormulaClass):
+                    raise TypeError(err_msg(phi))
+
+                self._subformula.append(phi)
             else:
                 if isinstance(phi, str):
-                    self._subformula.append(Lang.AtomicProposition(phi))
+                    phi = Lang.AtomicProposition(phi)
+                    if not isinstance(phi, FormulaClass):
+                        raise TypeError(err_msg(phi))
+
+                    self._subformula.append(phi)
                 else:
                     if not isinstance(phi, FormulaClass):
                         if (isinstance(phi, Lang.Formula) or
